@@ -234,6 +234,127 @@ theorem release_requires_listed (st : State) (caller : Client) (h : String)
     (hl : st.lists caller.token h = false) : release st caller h = (st, .refused .denied) := by
   unfold release; simp [hl]
 
+/-! ### hostnames as DNS names: one owner per name, whatever the spelling
+
+The property speaks about *hostnames*, and a hostname is a DNS name: `Shop.customer.org` and
+`shop.customer.org` are the same one. The code compares bytes everywhere (KV key of the binding,
+`strings.Contains` for the zones), so the statements above are statements about spellings. They become
+statements about DNS names through the one fact the code relies on: `acme.Normalize` hands on the
+canonical (lower-case) spelling only. That fact is the hypothesis `OpCanonical` below (checked by the
+driver on every harness line: a normalised hostname with `fold h ≠ h` is reported). -/
+
+theorem toLower_idem (c : Char) : c.toLower.toLower = c.toLower := by
+  simp only [Char.toLower]
+  split
+  · rename_i h
+    split
+    · rename_i h2
+      exfalso
+      simp only [ge_iff_le, UInt32.le_iff_toNat_le, UInt32.toNat_add, UInt32.toNat_sub] at h h2
+      simp at h h2
+      omega
+    · rfl
+  · simp [*]
+
+/-- every DNS name has a canonical spelling: `fold x` is canonical and names the same DNS name as `x` -/
+theorem fold_canonical (x : String) : canonical (fold x) = true ∧ sameName (fold x) x = true := by
+  have h : fold (fold x) = fold x := by
+    unfold fold
+    simp only [String.toList_ofList, List.map_map]
+    congr 1
+    apply List.map_congr_left
+    intro c _
+    exact toLower_idem c
+  simp [canonical, sameName, h]
+
+/-- ... and only one: two canonical spellings of one DNS name are the same string -/
+theorem canonical_unique (x y : String) (hx : canonical x = true) (hy : canonical y = true)
+    (h : sameName x y = true) : x = y := by
+  simp only [canonical, sameName, beq_iff_eq] at hx hy h
+  rw [← hx, ← hy, h]
+
+/-- every key that carries a binding is the canonical spelling of its DNS name -/
+def KeysCanonical (st : State) : Prop := ∀ x c, st.bound x = some c → canonical x = true
+
+/-- the postcondition of `acme.Normalize` the code relies on: what it returns is canonical -/
+def OpCanonical : Op → Prop
+  | .validate r => ∀ h, r.norm = some h → canonical h = true
+  | _ => True
+
+theorem init_keysCanonical : KeysCanonical State.init := by
+  intro x c h; simp [State.init] at h
+
+theorem step_keysCanonical (cfg : Cfg) (st : State) (op : Op) (hk : KeysCanonical st)
+    (ho : OpCanonical op) : KeysCanonical (step cfg st op) := by
+  intro x c hb
+  cases op with
+  | instruction r => exact hk x c hb
+  | validate r =>
+    simp only [step] at hb
+    rcases validate_frame cfg st r x with e | ⟨e1, -, -⟩
+    · rw [e] at hb; exact hk x c hb
+    · exact ho x e1
+  | release caller host =>
+    simp only [step, release] at hb
+    split at hb
+    · simp only at hb
+      split at hb
+      · simp at hb
+      · exact hk x c hb
+    · exact hk x c hb
+
+/-- invariant over histories: bindings only ever sit under canonical spellings -/
+theorem run_keysCanonical (cfg : Cfg) (ops : List Op) (st : State) (hk : KeysCanonical st)
+    (ho : ∀ op ∈ ops, OpCanonical op) : KeysCanonical (run cfg st ops) := by
+  induction ops generalizing st with
+  | nil => exact hk
+  | cons op ops ih =>
+    simp only [run, List.foldl_cons]
+    exact ih _ (step_keysCanonical cfg st op hk (ho op (List.mem_cons_self ..)))
+      (fun o h => ho o (List.mem_cons_of_mem _ h))
+
+/-- **one owner per DNS name**: after any history (validations, instructions, releases by anybody, any
+proofs / CNAME answers / KV failures) two bound spellings of one DNS name are the same key, hence have
+the same single owner. -/
+theorem dns_name_single_owner (cfg : Cfg) (ops : List Op) (st : State) (hk : KeysCanonical st)
+    (ho : ∀ op ∈ ops, OpCanonical op) (x y : String) (a b : Client) (hxy : sameName x y = true)
+    (hx : (run cfg st ops).bound x = some a) (hy : (run cfg st ops).bound y = some b) : x = y ∧ a = b := by
+  have hk' := run_keysCanonical cfg ops st hk ho
+  have e := canonical_unique x y (hk' x a hx) (hk' y b hy) hxy
+  subst e
+  rw [hx] at hy
+  exact ⟨rfl, by injection hy⟩
+
+/-- **another client is refused under every spelling**: while the DNS name is bound to `c` (under key `x`),
+a validation by anybody else of any spelling `h` of that name fails and changes nothing. -/
+theorem other_client_refused_any_spelling (cfg : Cfg) (st : State) (r : Req) (h x : String) (c : Client)
+    (hk : KeysCanonical st) (hn : r.norm = some h) (hcan : canonical h = true)
+    (hb : st.bound x = some c) (hs : sameName h x = true) (hc : c ≠ r.caller) :
+    (validate cfg st r).2.res ≠ .ok ∧ (validate cfg st r).1 = st := by
+  have e := canonical_unique h x hcan (hk x c hb) hs
+  subst e
+  exact other_client_refused cfg st r h c hn hb hc
+
+/-- **never rebinds, under any spelling**: once the DNS name of `x` is bound to `c`, no history without a
+release of `x` ever binds any spelling `y` of that name to anybody but `c`. -/
+theorem never_rebinds_any_spelling (cfg : Cfg) (ops : List Op) (st : State) (x : String) (c : Client)
+    (hk : KeysCanonical st) (ho : ∀ op ∈ ops, OpCanonical op)
+    (hb : st.bound x = some c) (hno : ∀ op ∈ ops, isReleaseOf x op = false)
+    (y : String) (c' : Client) (hs : sameName y x = true) (hy : (run cfg st ops).bound y = some c') :
+    c' = c := by
+  have hx := never_rebinds cfg ops st x c hb hno
+  exact (dns_name_single_owner cfg ops st hk ho y x c' c hs hy hx).2
+
+/-- **apex / ACME zone refused under every spelling**: when the DNS name (folded) is the zone or lies
+under it, the request is refused and nothing is stored. -/
+theorem zone_refused_any_spelling (cfg : Cfg) (st : State) (r : Req) (h pre : String)
+    (hn : r.norm = some h) (hcan : canonical h = true)
+    (hz : fold h = pre ++ cfg.apex ∨ fold h = pre ++ cfg.acme) :
+    (validate cfg st r).2.res ≠ .ok ∧ (validate cfg st r).1 = st := by
+  have e : fold h = h := by simpa [canonical] using hcan
+  rw [e] at hz
+  exact zone_and_subdomains_refused cfg st r pre (by rcases hz with hz | hz <;> simp [hn, hz])
+
 /-! ### non-vacuity -/
 
 def cfgEx : Cfg := ⟨"hello.com", "acme.example.com"⟩
@@ -252,5 +373,25 @@ example :
       ∧ (validate cfgEx st (reqEx alice "app.customer.org" none)).2.res = .ok
       ∧ (release st bob "app.customer.org").2 = .refused .denied
       ∧ ((release st alice "app.customer.org").1.bound "app.customer.org") = none := by decide
+
+
+/- spellings -/
+example : fold "Shop.Customer.ORG" = "shop.customer.org" ∧ canonical "shop.customer.org" = true
+    ∧ canonical "Shop.customer.org" = false ∧ sameName "SHOP.customer.org" "shop.Customer.org" = true
+    ∧ sameName "shop.customer.org" "shop.customer.net" = false := by decide
+example : OpCanonical (.validate (reqEx alice "app.customer.org" (some "tA"))) := by
+  intro h e; simp [reqEx] at e; subst e; decide
+/-- the hypothesis is needed: the model (like the code) is byte-exact, so if `Normalize` ever handed on
+a non-canonical spelling, one DNS name would get two owners -/
+example :
+    let st := (validate cfgEx State.init (reqEx alice "shop.customer.org" (some "tA"))).1
+    let st' := (validate cfgEx st (reqEx bob "Shop.customer.org" (some "tB"))).1
+    st'.bound "shop.customer.org" = some alice ∧ st'.bound "Shop.customer.org" = some bob
+      ∧ (validate cfgEx State.init (reqEx bob "x.y.HELLO.com" (some "tB"))).2.res = .ok := by decide
+/-- with canonical spellings the second client is refused and the zone is recognised -/
+example :
+    let st := (validate cfgEx State.init (reqEx alice "shop.customer.org" (some "tA"))).1
+    (validate cfgEx st (reqEx bob (fold "Shop.customer.org") (some "tB"))).2.res = .refused .invHost
+      ∧ (validate cfgEx State.init (reqEx bob (fold "x.y.HELLO.com") (some "tB"))).2.res = .refused .invHost := by decide
 
 end Specter.C29
